@@ -239,6 +239,32 @@ Proof.
 Qed.
 Print Assumptions C06_sort_in_place_is_permutation.
 
+(* ---- echo broadcast: delivery through direct send or re-send ---- *)
+
+(* With the loop shapes the engine reads from internal/dkg/broadcast.go on every run
+   ([shape_ok], the DEcho correspondence case): every participant other than the node itself is a
+   target both of the node's own bundles and of its re-send of any bundle it sees for the first
+   time.  Hence a bundle received by ONE node R is relayed to EVERY other participant S, whatever
+   happened to the origin's direct transmission to S. *)
+Theorem C06_echo_delivery : forall s sorted R S,
+  shape_ok s = true -> In S sorted -> p_addr S <> p_addr R ->
+  In S (echo_targets s sorted (p_addr R)) /\ In S (direct_targets s sorted (p_addr R)).
+Proof. exact echo_delivery. Qed.
+Print Assumptions C06_echo_delivery.
+
+(* and the obligation is needed: a re-send loop that stops one sender short never reaches the
+   participant with the largest key *)
+Theorem C06_echo_needs_all_senders :
+  exists sorted R S, In S sorted /\ p_addr S <> p_addr R /\
+    ~ In S (echo_targets (mkD true (AllButLast 1) AllSenders) sorted (p_addr R)).
+Proof.
+  exists [mkP [1] [1] [] true; mkP [2] [2] [] true; mkP [3] [3] [] true],
+         (mkP [2] [2] [] true), (mkP [3] [3] [] true).
+  split; [right; right; left; reflexivity|]. split; [discriminate|].
+  vm_compute. intros [H|[]]. discriminate.
+Qed.
+Print Assumptions C06_echo_needs_all_senders.
+
 (* ---- non-vacuity ---- *)
 
 Definition ex_pA := mkP [97] [9; 1] [1] true.
